@@ -45,6 +45,11 @@ def run_class(run, a, rng, opts, names, tag, n, corpus_dirs):
             for f in sorted(os.listdir(cdir)):
                 if f.endswith(".pdl") and not f.startswith("KF-"):
                     texts.append(open(os.path.join(cdir, f)).read())
+    # the witnesses of the recorded findings are replayed on every run
+    for k in run.known:
+        w = k.get("witness", {})
+        if w.get("pdl") and w["pdl"] not in texts:
+            texts.append(w["pdl"])
     while len(texts) < n:
         texts.append(GD.generate(rng, opts)[0])
     # one Backend per back end over the SAME texts; keep only descriptions every back end builds
@@ -140,6 +145,10 @@ def run_class(run, a, rng, opts, names, tag, n, corpus_dirs):
                 run.hist("skipped", "parsers:unsized-padded-array")
                 continue
             strings = [("empty", b"")]
+            for k in run.known:
+                w = k.get("witness", {})
+                if w.get("pdl", "").strip() == text.strip() and w.get("type") == T and w.get("input_hex") is not None:
+                    strings.append(("witness", bytes.fromhex(w["input_hex"])))
             for s in seeds[:2]:
                 strings += [("valid", s)] + GV.mutants(rng, s, 3)
             seen = set()
@@ -160,10 +169,16 @@ def run_class(run, a, rng, opts, names, tag, n, corpus_dirs):
                     if x in bad or y in bad:
                         continue   # crashes / exceptions are C01 / C13 / C14 / C19's business
                     if acc[x] != acc[y]:
+                        sig = {"class": "parser-acceptance", "a": x, "b": y, "odd_one": odd, **tags}
+                        if "cxx" in (x, y) and not types.decls[T].get("parent_id"):
+                            # does the Lean model of the emitted C++ view parser (Pdlv.Cxx) predict what the C++ code did?
+                            mc = mdl.model(ip, T, [{"k": "cxxview", "hex": s.hex()}])
+                            if isinstance(mc, list) and mc[0].get("r") in ("ok", "err"):
+                                sig["cxx_as_modelled"] = (mc[0].get("r") == "ok") == acc["cxx"]
                         run.violation("impl", "%s on %s: %s %s, %s %s" % (T, s.hex()[:40], x, "accepts" if acc[x] else "rejects",
                                                                          y, "accepts" if acc[y] else "rejects"),
                                       {"pdl": text, "type": T, "input_hex": s.hex(), "kind": kind, x: res[x], y: res[y],
-                                       "signature": {"class": "parser-acceptance", "a": x, "b": y, "odd_one": odd, **tags}})
+                                       "signature": sig})
                     elif acc[x] and res[x].get("type", T) == res[y].get("type", T) and W.canon(res[x]["value"]) != W.canon(res[y]["value"]):
                         run.violation("impl", "%s on %s: %s and %s parse different field values" % (T, s.hex()[:40], x, y),
                                       {"pdl": text, "type": T, "input_hex": s.hex(), "kind": kind, x: res[x], y: res[y],
